@@ -658,7 +658,10 @@ class BPWorld(World):
         "D1BP": ["contract", "contract_gloop_expand", "contract_with_loops", "contract_loop_series_expansion",
                  "normalize_message_pairs", "normalize_tensors", "contract_strip"],
         "D2BP": ["contract", "contract_gloop_expand", "contract_loop_series_expansion",
-                 "normalize_message_pairs", "normalize_tensors", "contract_strip"],
+                 "normalize_message_pairs", "normalize_tensors", "contract_strip",
+                 # non-inplace by default: they return a regauged copy and
+                 # must leave the object they were called on alone
+                 "gauge_symmetric", "compress_untruncated", "contract"],
         "HD1BP": ["contract", "normalize_messages", "contract_strip"],
         "HV1BP": ["contract", "contract_dense", "contract_strip"],
         "L1BP": ["contract", "normalize_message_pairs", "contract_strip"],
@@ -681,6 +684,16 @@ class BPWorld(World):
                     val = val[0] * 10.0 ** float(np.real(val[1]))
             elif name == "contract" and fl == "HV1BP":
                 st, val = self.call(lambda: bp.contract(check_zero=False))
+            elif name in ("gauge_symmetric", "compress_untruncated"):
+                if name == "gauge_symmetric":
+                    st, val = self.call(lambda: bp.gauge_symmetric())
+                else:
+                    st, val = self.call(lambda: bp.compress(max_bond=None, cutoff=0.0))
+                done.append(name)
+                if st == "rejected":
+                    raise Violation(f"C14/readout_rejected:{fl}", f"{' -> '.join(done)}: {val!r}")
+                self.stats.probe("non_inplace_gauge_in_history")
+                continue
             else:
                 st, val = self.call(lambda: getattr(bp, name)())
             done.append(name)
